@@ -356,6 +356,12 @@ func runC10(c c10Case) (r pbt.Result) {
 		r.Detailf("probe: %v", w.ProbeErr)
 		return
 	}
+	if wantErr != nil && callErr != nil && (callErr.Error() != wantMsg || (codeFixed && drpcerr.Code(callErr) != wantCode)) {
+		// the caller keeps the error (logs it, wraps it, returns it) while the connection carries the next call
+		fail("the error a call returned changed after a later call on the connection")
+		r.Detailf("now %q code %d, want %q code %d", clipStr(callErr.Error()), drpcerr.Code(callErr), clipStr(wantMsg), wantCode)
+		return
+	}
 	r.Label(fmt.Sprintf("shape_%d", c.Shape))
 	if c.Err != nil {
 		r.Label("handler_error")
